@@ -77,6 +77,20 @@ func genPartition(r *vh.Rand, cs *caseT, n int, dupRate, conflictRate int) []fil
 			if cs.name == "all-tagged" && len(fs.kv) == 0 {
 				fs.kv["arc:tags"] = "host"
 			}
+		case "tagmix": // EVERY file declares arc:tags, the tag sets differ (nested and non-nested)
+			choices := []string{"host", "host,region", "region"}
+			if cs.name == "tagmix-nested" {
+				choices = []string{"host", "host,region"}
+			}
+			t := vh.Pick(r, choices)
+			fs.kv["arc:tags"] = t
+			if strings.Contains(t, "host") {
+				cols = append(cols, "host")
+			}
+			if strings.Contains(t, "region") {
+				cols = append(cols, "region")
+				hasRegion = true
+			}
 		case "cq":
 			if r.Chance(70) || cs.name == "all-tagged" {
 				fs.kv["arc:dedup_time"] = "true"
@@ -168,8 +182,8 @@ func (cs *caseT) materialize(specs []fileSpec) error {
 		}
 		for _, g := range fs.rows {
 			rid := cs.rids.id(canonRow(g))
-			var k [4]int
-			for L := 1; L <= 3; L++ {
+			var k [5]int
+			for L := 1; L <= 4; L++ {
 				k[L] = cs.kids[L].id(canonKey(g, levelCols[L]))
 			}
 			cs.ridKey[rid] = k
@@ -203,7 +217,7 @@ func faultStr(plan []fault) string {
 // rows share the key but differ (then the surviving row of a dedup is DuckDB's choice and scans
 // are compared at key level).
 func (cs *caseT) hasConflicts() bool {
-	for L := 1; L <= 3; L++ {
+	for L := 1; L <= 4; L++ {
 		present := false
 		for _, f := range cs.files {
 			if f.level == L {
@@ -240,7 +254,8 @@ func runCase(c *vh.Ctx, cs *caseT, specs []fileSpec) {
 		cs.kids[L] = intern{m: map[string]int{}}
 	}
 	cs.nameOf = map[string]string{}
-	cs.origRid, cs.ridKey = map[int]int{}, map[int][4]int{}
+	cs.origRid, cs.ridKey = map[int]int{}, map[int][5]int{}
+	cs.causes = map[string]bool{}
 	cs.manInputs, cs.manOut = map[string][]string{}, map[string]string{}
 	cs.scanCache = map[string][]int{}
 	if err := cs.materialize(specs); err != nil {
@@ -249,14 +264,20 @@ func runCase(c *vh.Ctx, cs *caseT, specs []fileSpec) {
 		return
 	}
 	anyDedup := false
-	cs.coarsest = 3
+	cs.plevel = 0
 	for _, f := range cs.files {
 		anyDedup = anyDedup || f.level > 0
-		if f.level > 0 && f.level < cs.coarsest {
-			cs.coarsest = f.level
+		if f.level > 0 {
+			if cs.plevel == 0 {
+				cs.plevel = f.level
+			} else {
+				cs.plevel = meetLevel(cs.plevel, f.level)
+			}
 		}
 	}
-	cs.plevel = cs.coarsest
+	if cs.plevel == 0 {
+		cs.plevel = 3
+	}
 	cs.mode = "rid"
 	if anyDedup && cs.hasConflicts() {
 		cs.mode = "kid"
@@ -273,7 +294,7 @@ func runCase(c *vh.Ctx, cs *caseT, specs []fileSpec) {
 	for _, f := range cs.files {
 		var rs []string
 		for _, r := range f.rows {
-			rs = append(rs, fmt.Sprintf("%d:%d:%d:%d", r.rid, r.k[1], r.k[2], r.k[3]))
+			rs = append(rs, fmt.Sprintf("%d:%d:%d:%d:%d", r.rid, r.k[1], r.k[2], r.k[3], r.k[4]))
 		}
 		emit(fmt.Sprintf("file %d %d %s %s", f.idx, f.level, f.meta, strings.Join(rs, ",")), fmt.Sprintf("ok %d", len(f.rows)))
 	}
@@ -331,14 +352,14 @@ func runCase(c *vh.Ctx, cs *caseT, specs []fileSpec) {
 		pl := cs.plevel
 		vk := map[int]int{}   // visible rows per key at the printed level
 		ok := map[int]int{}   // original rows per key at the printed level
-		var visAt [4]map[int]bool
-		for L := 1; L <= 3; L++ {
+		var visAt [5]map[int]bool
+		for L := 1; L <= 4; L++ {
 			visAt[L] = map[int]bool{}
 		}
 		for _, r := range vis {
 			if k, known := cs.ridKey[r]; known {
 				vk[k[pl]]++
-				for L := 1; L <= 3; L++ {
+				for L := 1; L <= 4; L++ {
 					visAt[L][k[L]] = true
 				}
 			}
@@ -388,7 +409,7 @@ func runCase(c *vh.Ctx, cs *caseT, specs []fileSpec) {
 				for _, r := range f.rows {
 					if !visAt[lv][r.k[lv]] {
 						lostRows++
-						if visAt[cs.coarsest][r.k[cs.coarsest]] {
+						if visAt[pl][r.k[pl]] {
 							lostCoarse++
 						}
 					}
@@ -406,8 +427,14 @@ func runCase(c *vh.Ctx, cs *caseT, specs []fileSpec) {
 			c.Fail("C09:row-not-from-input", fmt.Sprintf("%d visible rows are not among the original rows (%s)", unknown, desc), cs.replay.String())
 		}
 		if lostRows > 0 {
+			// classify by the cause seen when the inputs were deleted
 			key := "C09:rows-lost"
-			if lostCoarse == lostRows {
+			switch {
+			case cs.causes["tag-union-not-taken"]:
+				key += ":tag-union-not-taken"
+			case cs.causes["tag-union-not-taken:mixed-with-untagged"]:
+				key += ":tag-union-not-taken:mixed-with-untagged"
+			case cs.causes["collapsed-under-coarser-key"] && lostCoarse == lostRows:
 				key += ":collapsed-under-coarser-key"
 			}
 			c.Fail(key, fmt.Sprintf("%d original rows have no visible row with the same (tags,time) after recovery + cycle (%s)", lostRows, desc), cs.replay.String())
@@ -514,6 +541,40 @@ func main() {
 		}
 		runCase(c, cs, specs)
 	}
+	// (1c) every file tagged, tag sets differ: every listing order of nested and non-nested tag sets; rows that
+	// share the time and one tag but differ in the other. Fault-free: the dedup key must be the union.
+	{
+		t0 := timeCell(1704067200000000)
+		mk := func(tags string, hosts, regions []string) fileSpec {
+			fs := fileSpec{cols: []string{"time"}, kv: map[string]string{"arc:tags": tags}}
+			if strings.Contains(tags, "host") {
+				fs.cols = append(fs.cols, "host")
+			}
+			if strings.Contains(tags, "region") {
+				fs.cols = append(fs.cols, "region")
+			}
+			for i := 0; i < max(len(hosts), len(regions)); i++ {
+				g := grow{cells: map[string]cell{"time": t0}}
+				if strings.Contains(tags, "host") {
+					g.cells["host"] = strCell(hosts[i])
+				}
+				if strings.Contains(tags, "region") {
+					g.cells["region"] = strCell(regions[i])
+				}
+				fs.rows = append(fs.rows, g)
+			}
+			return fs
+		}
+		fH := mk("host", []string{"web1", "web2"}, nil)
+		fHR := mk("host,region", []string{"web1", "web1", "web2"}, []string{"eu", "us", "eu"})
+		fR := mk("region", nil, []string{"eu", "us"})
+		orders := [][]fileSpec{{fH, fHR}, {fHR, fH}, {fH, fR}, {fR, fH}, {fR, fHR}, {fHR, fR},
+			{fH, fR, fHR}, {fH, fHR, fR}, {fR, fH, fHR}, {fR, fHR, fH}, {fHR, fH, fR}, {fHR, fR, fH}}
+		for _, o := range orders {
+			cs := &caseT{name: "tagmix-order", kind: "tagmix", minFiles: 2, maxBatch: 30, quiesce: 1}
+			runCase(c, cs, append([]fileSpec(nil), o...))
+		}
+	}
 	nCases := c.N
 	if nCases == 0 {
 		nCases = 45
@@ -523,7 +584,10 @@ func main() {
 	}
 	for i := 0; i < nCases; i++ {
 		cs := &caseT{name: "rand", quiesce: 2}
-		cs.kind = vh.Pick(r, []string{"plain", "plain", "tagged", "tagged", "cq"})
+		cs.kind = vh.Pick(r, []string{"plain", "plain", "tagged", "tagged", "cq", "tagmix"})
+		if cs.kind == "tagmix" && r.Bool() {
+			cs.name = "tagmix-nested"
+		}
 		if r.Chance(15) {
 			cs.name = "all-tagged"
 		} else if r.Chance(12) {
